@@ -17,7 +17,7 @@ PID = "C08"
 RULE = (
     "alu: 3 streamers, each varied over a menu (temporal dims 1,2,3,6 with flags all-n / leading r / one i; spatial dims (4,),(8,),(8,4); every subset of "
     "{address remap, channel mask, broadcast, transpose}) one at a time and all equal, x every temporal pattern length 0..T x zero-pointer choice; gemmx: default "
-    "and n=4/16 geometries x kernels {mac, qmac(zero points), qmac->i8, qmac->rescale->i8 (1 and n channels), rescale only} x pattern variants; xdma: with and "
+    "and n=4/16/6/1 (thorough: 1..17) geometries x kernels {mac, qmac(zero points), qmac->i8, qmac->rescale->i8 (1 and n channels), rescale only} x pattern variants; xdma: with and "
     "without channel/byte masks x extension subsets; phs: accelerators built from merge histories (0..4 switches). distinct = distinct (config, pattern, kernel); "
     "non-trivial = streamer has an option or pattern shorter than the hardware dimensionality"
 )
@@ -70,15 +70,21 @@ def space(tier):
                     else:
                         cfg[pos] = m
                     cases.append(("alu", tuple(cfg), L, zero))
-    for geom in (8, 4, 16):
+    for geom in (8, 4, 16, 6, 1) if tier == "quick" else range(1, 18):
         for kern in ("mac", "qmac", "qmac_i8", "qmac_rescale1", "qmac_rescaleN", "rescale_only"):
             for var in (0, 1, 2):
                 cases.append(("gemmx", geom, kern, var))
     for chan, byte in itertools.product([True, False], repeat=2):
-        for ex in [(), (0,), (5,), (3, 4), tuple(range(7))]:
-            for L in (0, 2, 5):
+        subsets = [(), (0,), (5,), (3, 4), tuple(range(7))]
+        if tier == "thorough":
+            subsets = [c for k in range(8) for c in itertools.combinations(range(7), k)]
+        for ex in subsets:
+            for L in (0, 2, 5) if tier == "quick" else range(6):
                 cases.append(("xdma", chan, byte, ex, L))
-    for h in [(0,), (0, 1), (0, 7), (2, 9, 14), (0, 1, 7, 20)]:
+    hists = [(0,), (0, 1), (0, 7), (2, 9, 14), (0, 1, 7, 20)]
+    if tier == "thorough":
+        hists += [(a, b_) for a in range(0, 24, 3) for b_ in range(1, 24, 4)] + [(1, 5, 9), (3, 3, 8), (0, 4, 11, 19), (2, 6, 10, 14, 18)]
+    for h in hists:
         for k in range(len(h)):
             for L in (1, 2):
                 cases.append(("phs", h, k, L))
@@ -153,7 +159,7 @@ def run_convert(acc, module_text, key, case_j, r):
             region = op
     try:
         ops = list(acc.convert_to_acc_ops(region))
-    except (NotImplementedError, AssertionError, IndexError, KeyError) as e:
+    except (NotImplementedError, AssertionError, IndexError, KeyError, ValueError) as e:
         r.rejected = "convert:" + type(e).__name__
         r.count("convert_rejected:" + type(e).__name__ + ":" + str(e)[:60])
         return None
@@ -378,7 +384,10 @@ def eval_gemmx(r, geom, kern, var):
         mults = rs["mult"] if len(rs["mult"]) > 1 else rs["mult"] * geom
         for i in range(-(-geom // 4)):
             grp = shifts[4 * i : 4 * i + 4]
-            kexp[f"shift_{i}"] = sum((s & 0xFF) << (8 * j) for j, s in enumerate(grp))
+            exp = sum((s & 0xFF) << (8 * j) for j, s in enumerate(grp))
+            # a partial last group (n not a multiple of 4): the bytes of channels that do not exist are don't-care
+            mask = (1 << (8 * len(grp))) - 1
+            kexp[f"shift_{i}"] = (got.get(f"shift_{i}", 0) & ~mask & 0xFFFFFFFF) | exp
         for i in range(geom):
             kexp[f"mult_{i}"] = mults[i]
     compare(r, key, case_j, names, vals, kexp, f"snax_gemmx n={geom} {kern} kernel registers")
